@@ -17,6 +17,27 @@ var commonAssumptions = []string{
 }
 
 var propMeta = map[string]PropMeta{
+	"C06": {
+		NotCovered: "Deadlock between goroutines, goroutine-per-request leaks, 'keeps serving other clients', resource exhaustion by huge or deeply nested values (encoding/json's behaviour) and the HTTP status/JSON-RPC error answers (C03) are not decided. Dereferences of parameters and fields of unknown nil-ness are not obligations. Functions with a deferred recover() are exempt from the panic obligations (the panic does not crash the server).",
+		Assumptions: append([]string{
+			"objects are created by their constructors: the type invariants (maps non-nil) are assumed at every function entry and checked for the functions that write the fields; callees preserve the invariants of the objects they are handed",
+			"callbacks and code outside the module do not close channels private to the module's types and do not change lock state of this goroutine",
+			"SSEServer/StdioServer.SendRequest are called with int64 request ids (the library's own ListRoots does)",
+		}, commonAssumptions...),
+	},
+	"C07": {
+		NotCovered: "CPU time, promptness, 'the affected call returns an error' and 'other pending calls still complete' (C08/C01) are not decided here. sseClientTransport.close closes the response channels in a loop over the map; that the channels in the map are open and pairwise distinct is not proved (waived: nosweep close). The stderr log reader of the stdio client keeps bufio.Scanner's default token limit (waived: not a protocol stream).",
+		Assumptions: append([]string{
+			"assumed library behaviour: bufio.Reader.ReadString / json.Decoder.Decode / bufio.Scanner.Scan either consume input or fail terminally (errors are sticky); bufio.Scanner's token limit is 64 KiB unless Buffer is called; http.Response.Body is non-nil when Handle returns no error",
+			"type invariants hold at function entry and callees preserve them (checked for every function that writes the fields)",
+		}, commonAssumptions...),
+	},
+	"C15": {
+		NotCovered: "What a user middleware does (calling next twice, not at all) is its own business: the contract fixes what the library builds and how often it invokes it. The mapping of a middleware error to a JSON-RPC internal error in each transport wrapper, and the order in which WithMiddleware/WithSSEMiddleware options reach the handler, are not covered yet.",
+		Assumptions: append([]string{
+			"applying a middleware to a handler is a deterministic, side-effect free construction (callspec Middleware: function)",
+		}, commonAssumptions...),
+	},
 	"C16": {
 		NotCovered: "Concurrent use of one client object (two goroutines racing Initialize/Close) is C20's subject and not decided here; the not-initialized error is required to be non-nil (ListResources/ReadResource wrap the sentinel with %w), its text is not examined; the capabilities part relies on the registries' type invariant (every ordered uri is registered), which C12's obligations establish for the registering functions.",
 		Assumptions: append([]string{
